@@ -4,6 +4,7 @@
 export GOFLAGS=-mod=mod GOPROXY=off GOSUMDB=off GOTOOLCHAIN=local
 cd /verif/govc && go build -o /verif/bin/govc ./cmd/govc || exit 2
 cd /verif && /verif/bin/govc baseline || exit 2
+/verif/bin/govc witnesslists > /tmp/witnesslists.log 2>&1 || { echo "a listed boundary input fails on the current tree:"; grep FAILS /tmp/witnesslists.log; exit 2; }
 python3 tools/mkmanifest.py >/dev/null
 fail=0
 for p in $(python3 -c "import json; print(' '.join(c['property_id'] for c in json.load(open('/verif/MANIFEST.json'))['checks']))"); do
